@@ -517,6 +517,49 @@ func ruleClose(c *Ctx) *RuleResult {
 	} else {
 		r.fail("close-callcontext", p.Pos(cc.Pos()), "CallContext no longer runs the pending to-be-closed handlers of the protected call")
 	}
+	// CallContext's recover handler may discard pending to-be-closed values only when
+	// what it recovered is a context termination (no resources left to run them). Any
+	// other value (a coroutine being closed, a foreign panic) is re-panicked and the
+	// values must stay on the stack for whoever handles it (Thread.end closes them)
+	for _, h := range cc.AnonFuncs {
+		hasRecover := false
+		forEachInstr(h, func(ins ssa.Instruction) {
+			if call, ok := ins.(*ssa.Call); ok {
+				if b, ok := call.Call.Value.(*ssa.Builtin); ok && b.Name() == "recover" {
+					hasRecover = true
+				}
+			}
+		})
+		if !hasRecover {
+			continue
+		}
+		gc := newGuardCtx(h)
+		forEachInstr(h, func(ins ssa.Instruction) {
+			call, ok := ins.(*ssa.Call)
+			if !ok {
+				return
+			}
+			cal := call.Call.StaticCallee()
+			if cal == nil || cal.Name() != "truncate" {
+				return
+			}
+			okGuard := false
+			for _, ge := range gc.MustEdges(ins.Block()) {
+				ex, ok := ge.If.Cond.(*ssa.Extract)
+				if !ok || ex.Index != 1 || !ge.Taken {
+					continue
+				}
+				if ta, ok := ex.Tuple.(*ssa.TypeAssert); ok && ta.CommaOk && strings.HasSuffix(typeKey(ta.AssertedType), "ContextTerminationError") {
+					okGuard = true
+				}
+			}
+			if okGuard {
+				r.ok("CallContext discards pending to-be-closed values only for a context termination")
+			} else {
+				r.fail("close-discarded-for-foreign-panic", p.InstrPos(ins), "CallContext's recover handler truncates the close stack before it knows that the recovered value is a ContextTerminationError: when a coroutine suspended inside pcall is closed (the threadClose signal unwinds through here and is re-panicked), the to-be-closed variables declared inside that pcall are dropped without their __close handlers ever running")
+			}
+		})
+	}
 	endOK := false
 	for _, name := range []string{"(*Thread).end", "(*Thread).closeOnEnd"} {
 		if f := p.Func("runtime", name); f != nil && len(callsWhere(f, isCCS)) > 0 {
